@@ -201,9 +201,14 @@ func seenAttrs(req *restful.Request, hr *http.Request, n int) []int {
 	return out
 }
 
-func genFilter(i int, script string, fwrites bool, nAll int) restful.FilterFunction {
+// svcTag != "": the filter belongs to service /<svcTag>; running for a request of another
+// service is logged as filter 99 (no request has such a filter: the monitor rejects it)
+func genFilter(i int, script string, fwrites bool, nAll int, svcTag string) restful.FilterFunction {
 	return func(req *restful.Request, resp *restful.Response, chain *restful.FilterChain) {
 		l := logFor(req.Request)
+		if svcTag != "" && !strings.HasPrefix(req.Request.URL.Path, "/"+svcTag+"/") {
+			l.add(devent{K: "enter", F: 99, Rq: l.id(req), Rs: l.id(resp)})
+		}
 		l.add(devent{K: "enter", F: i, Rq: l.id(req), Rs: l.id(resp), At: seenAttrs(req, req.Request, nAll)})
 		if script == "pb" {
 			l.add(devent{K: "panic", F: i})
@@ -341,16 +346,19 @@ func buildChainContainer(cs chainCase, instrument bool) *restful.Container {
 	idx := 0
 	for k := 0; k < cs.Lv[0]; k++ {
 		idx++
-		c.Filter(genFilter(idx, script(idx), cs.FWrites, nAll))
+		c.Filter(genFilter(idx, script(idx), cs.FWrites, nAll, ""))
 	}
 	ws := new(restful.WebService).Path("/s")
 	for k := 0; k < cs.Lv[1]; k++ {
 		idx++
-		ws.Filter(genFilter(idx, script(idx), cs.FWrites, nAll))
+		ws.Filter(genFilter(idx, script(idx), cs.FWrites, nAll, "s"))
 	}
 	target := func(req *restful.Request, resp *restful.Response) {
 		l := logFor(req.Request)
 		l.add(devent{K: "target", F: 0, Rq: l.id(req), Rs: l.id(resp), At: seenAttrs(req, req.Request, nAll)})
+		if !strings.HasPrefix(req.Request.URL.Path, "/s/") {
+			l.add(devent{K: "enter", F: 99})
+		}
 		if cs.Tgt == "panic" {
 			l.add(devent{K: "panic", F: 0})
 			panic("target-panic")
@@ -364,7 +372,7 @@ func buildChainContainer(cs chainCase, instrument bool) *restful.Container {
 	rb := ws.GET("/r").To(target)
 	for k := 0; k < cs.Lv[2]; k++ {
 		idx++
-		rb.Filter(genFilter(idx, script(idx), cs.FWrites, nAll))
+		rb.Filter(genFilter(idx, script(idx), cs.FWrites, nAll, "s"))
 	}
 	switch cs.REnc {
 	case "on":
@@ -375,6 +383,27 @@ func buildChainContainer(cs chainCase, instrument bool) *restful.Container {
 	ws.Route(rb)
 	ws.Route(ws.GET("/probe").To(func(req *restful.Request, resp *restful.Response) { resp.Write([]byte("probe-ok")) }))
 	c.Add(ws)
+	// a second service with the same number of service / route filters, but its own
+	wt := new(restful.WebService).Path("/t")
+	tidx := cs.Lv[0]
+	for k := 0; k < cs.Lv[1]; k++ {
+		tidx++
+		wt.Filter(genFilter(tidx, script(tidx), cs.FWrites, nAll, "t"))
+	}
+	tb := wt.GET("/r").To(func(req *restful.Request, resp *restful.Response) {
+		l := logFor(req.Request)
+		if !strings.HasPrefix(req.Request.URL.Path, "/t/") {
+			l.add(devent{K: "enter", F: 99})
+		}
+		l.add(devent{K: "target", F: 0, Rq: l.id(req), Rs: l.id(resp), At: seenAttrs(req, req.Request, nAll)})
+		writeChunks(l, resp, cs.Payload, cs.Chunks)
+	})
+	for k := 0; k < cs.Lv[2]; k++ {
+		tidx++
+		tb.Filter(genFilter(tidx, script(tidx), cs.FWrites, nAll, "t"))
+	}
+	wt.Route(tb)
+	c.Add(wt)
 	plain := http.HandlerFunc(func(w http.ResponseWriter, r *http.Request) {
 		l := logFor(r)
 		l.add(devent{K: "target", F: 0, Rq: 0, Rs: 0, At: seenAttrs(nil, r, nAll)})
@@ -626,7 +655,11 @@ func runChainConc(tw *traceWriter, cs chainCase, rid *int) {
 			<-start
 			for k := 0; k < 4; k++ {
 				slot := g*4 + k
-				hr, _ := buildRequest(method, path, [][2]string{{"X-Rid", fmt.Sprint(results[slot].id)}}, nil, false)
+				p := path
+				if cs.Routed && (g+k)%2 == 1 {
+					p = "/t/r" // the other service: same chain shape, different filters
+				}
+				hr, _ := buildRequest(method, p, [][2]string{{"X-Rid", fmt.Sprint(results[slot].id)}}, nil, false)
 				rec := httptest.NewRecorder()
 				func() {
 					defer func() {
